@@ -1108,10 +1108,269 @@ def fam_twins_random(tier, seed, extra=()):
     return out
 
 
+# ------------------------------------------------------------------------------------------------
+# random control-flow / evaluation-order programs with a reference evaluator (bounded probe oracle
+# for C07 and C12; written from docs/statements.md and docs/operators.md, shares no code with /repo)
+class _Brk(Exception):
+    pass
+
+
+class _Cnt(Exception):
+    pass
+
+
+class _Ret(Exception):
+    def __init__(self, v):
+        self.v = v
+
+
+class _CF:
+    """AST nodes are tuples; render() gives SimpleSL text, ev() the reference semantics"""
+    def __init__(self, rnd):
+        self.r = rnd
+        self.ncell = 0
+        self.nvar = 0
+        self.nfun = 0
+        self.tick = 0
+
+    # ---------- generation
+    def expr(self, d, vars_, cells):
+        r = self.r
+        c = r.random()
+        if d <= 0 or c < 0.25:
+            opts = [("lit", r.randint(-3, 9))]
+            opts += [("var", v) for v in vars_] + [("cell", m) for m in cells]
+            return r.choice(opts)
+        if c < 0.5:
+            self.tick += 1
+            return ("t", self.tick % 9 + 1, self.expr(d - 1, vars_, cells))
+        if c < 0.85:
+            return ("bin", r.choice(["+", "-", "*"]), self.expr(d - 1, vars_, cells), self.expr(d - 1, vars_, cells))
+        return ("neg", self.expr(d - 1, vars_, cells))
+
+    def cond(self, d, vars_, cells):
+        r = self.r
+        c = r.random()
+        if d <= 0 or c < 0.55:
+            return ("cmp", r.choice(["<", "<=", ">", ">=", "==", "!="]), self.expr(1, vars_, cells), self.expr(1, vars_, cells))
+        if c < 0.85:
+            return ("logic", r.choice(["&&", "||"]), self.cond(d - 1, vars_, cells), self.cond(d - 1, vars_, cells))
+        return ("not", self.cond(d - 1, vars_, cells))
+
+    def block(self, d, vars_, cells, in_loop, n=None):
+        vars_, cells = list(vars_), list(cells)
+        out = []
+        for _ in range(n or self.r.randint(1, 4)):
+            out.append(self.stmt(d, vars_, cells, in_loop))
+        return out
+
+    def stmt(self, d, vars_, cells, in_loop):
+        r = self.r
+        c = r.random()
+        if c < 0.18 or not cells:
+            self.ncell += 1
+            m = f"c{self.ncell}"
+            s = ("newcell", m, self.expr(1, vars_, cells))
+            cells.append(m)
+            return s
+        if c < 0.3:
+            self.nvar += 1
+            v = f"v{self.nvar}"
+            s = ("set", v, self.expr(2, vars_, cells))
+            vars_.append(v)
+            return s
+        if c < 0.5:
+            return ("assign", r.choice(cells), r.choice(["=", "+=", "-=", "*="]), self.expr(2, vars_, cells))
+        if c < 0.65 and d > 0:
+            return ("if", self.cond(1, vars_, cells), self.block(d - 1, vars_, cells, in_loop),
+                    self.block(d - 1, vars_, cells, in_loop) if r.random() < 0.6 else None)
+        if c < 0.78 and d > 0:
+            self.ncell += 1
+            i = f"i{self.ncell}"
+            bound = r.randint(1, 3)
+            kind = r.choice(["while", "loop"])
+            body = self.block(d - 1, vars_, cells, True)   # the loop counter is not visible to the body
+            return (kind, i, bound, body)
+        if c < 0.84 and in_loop:
+            return ("break",) if r.random() < 0.5 else ("continue",)
+        if c < 0.9 and d > 0:
+            return ("block", self.block(d - 1, vars_, cells, in_loop))
+        if c < 0.94:
+            return ("return", self.expr(1, vars_, cells))
+        if d > 0:
+            k = r.randint(0, 2)
+            arms = [(j, self.block(d - 1, vars_, cells, in_loop, 1)) for j in range(k + 1)]
+            return ("match", self.expr(1, vars_, cells), arms, self.block(d - 1, vars_, cells, in_loop, 1))
+        return ("expr", self.expr(2, vars_, cells))
+
+    # ---------- rendering
+    def rex(self, e):
+        k = e[0]
+        if k == "lit":
+            return str(e[1]) if e[1] >= 0 else f"(0 - {-e[1]})"
+        if k == "var":
+            return e[1]
+        if k == "cell":
+            return f"(*{e[1]})"
+        if k == "t":
+            return f"t({e[1]}, {self.rex(e[2])})"
+        if k == "bin":
+            return f"({self.rex(e[2])} {e[1]} {self.rex(e[3])})"
+        return f"(-{self.rex(e[1])})"
+
+    def rcond(self, c):
+        k = c[0]
+        if k == "cmp":
+            return f"({self.rex(c[2])} {c[1]} {self.rex(c[3])})"
+        if k == "logic":
+            return f"({self.rcond(c[2])} {c[1]} {self.rcond(c[3])})"
+        return f"(!{self.rcond(c[1])})"
+
+    def rblock(self, b):
+        return "{ " + "; ".join(self.rstmt(x) for x in b) + " }"
+
+    def rstmt(self, st):
+        k = st[0]
+        if k == "newcell":
+            return f"{st[1]} := mut {self.rex(st[2])}"
+        if k == "set":
+            return f"{st[1]} := {self.rex(st[2])}"
+        if k == "assign":
+            return f"{st[1]} {st[2]} {self.rex(st[3])}"
+        if k == "if":
+            return f"if {self.rcond(st[1])} {self.rblock(st[2])}" + (f" else {self.rblock(st[3])}" if st[3] is not None else "")
+        if k == "while":
+            return f"{st[1]} := mut 0; while (*{st[1]}) < {st[2]} {{ {st[1]} += 1; " + "; ".join(self.rstmt(x) for x in st[3]) + " }"
+        if k == "loop":
+            return f"{st[1]} := mut 0; loop {{ if (*{st[1]}) >= {st[2]} {{ break }}; {st[1]} += 1; " + "; ".join(self.rstmt(x) for x in st[3]) + " }"
+        if k == "break":
+            return "break"
+        if k == "continue":
+            return "continue"
+        if k == "block":
+            return self.rblock(st[1])
+        if k == "return":
+            return f"return ({self.rex(st[1])}, (*log))"
+        if k == "match":
+            arms = " ".join(f"({j}) => {self.rblock(b)}," for j, b in st[2])
+            return f"match {self.rex(st[1])} {{ {arms} => {self.rblock(st[3])}, }}"
+        return self.rex(st[1])
+
+    # ---------- reference semantics
+    def ev(self, e, env, heap):
+        k = e[0]
+        if k == "lit":
+            return e[1]
+        if k == "var":
+            return env[e[1]]
+        if k == "cell":
+            return heap[env[e[1]]]
+        if k == "t":
+            v = self.ev(e[2], env, heap)       # argument first, then the call logs
+            heap[0] = wrap(heap[0] * 10 + e[1])
+            return v
+        if k == "bin":
+            a = self.ev(e[2], env, heap)
+            b = self.ev(e[3], env, heap)
+            return int_op(e[1], a, b)
+        return wrap(-self.ev(e[1], env, heap))
+
+    def evc(self, c, env, heap):
+        k = c[0]
+        if k == "cmp":
+            a = self.ev(c[2], env, heap)
+            b = self.ev(c[3], env, heap)
+            return int_op(c[1], a, b)
+        if k == "logic":
+            a = self.evc(c[2], env, heap)
+            if c[1] == "&&":
+                return self.evc(c[3], env, heap) if a else False
+            return True if a else self.evc(c[3], env, heap)
+        return not self.evc(c[1], env, heap)
+
+    def run_block(self, b, env, heap):
+        env = dict(env)
+        for st in b:
+            self.run(st, env, heap)
+
+    def run(self, st, env, heap):
+        k = st[0]
+        if k == "newcell":
+            v = self.ev(st[2], env, heap)
+            heap.append(v)
+            env[st[1]] = len(heap) - 1
+        elif k == "set":
+            env[st[1]] = self.ev(st[2], env, heap)
+        elif k == "assign":
+            v = self.ev(st[3], env, heap)           # value first, then read-modify-write of the cell
+            a = env[st[1]]
+            heap[a] = v if st[2] == "=" else int_op(st[2][0], heap[a], v)
+        elif k == "if":
+            if self.evc(st[1], env, heap):
+                self.run_block(st[2], env, heap)
+            elif st[3] is not None:
+                self.run_block(st[3], env, heap)
+        elif k in ("while", "loop"):
+            heap.append(0)
+            env[st[1]] = len(heap) - 1
+            a = env[st[1]]
+            while heap[a] < st[2]:
+                heap[a] = wrap(heap[a] + 1)
+                try:
+                    self.run_block(st[3], env, heap)
+                except _Brk:
+                    break
+                except _Cnt:
+                    continue
+        elif k == "break":
+            raise _Brk()
+        elif k == "continue":
+            raise _Cnt()
+        elif k == "block":
+            self.run_block(st[1], env, heap)
+        elif k == "return":
+            v = self.ev(st[1], env, heap)
+            raise _Ret((v, heap[0]))
+        elif k == "match":
+            v = self.ev(st[1], env, heap)
+            for j, b in st[2]:
+                if v == j:
+                    self.run_block(b, env, heap)
+                    return
+            self.run_block(st[3], env, heap)
+        else:
+            self.ev(st[1], env, heap)
+
+
+def fam_control_random(tier, seed, extra=()):
+    out = []
+    n = 200 if tier == "quick" else 3000
+    rnd = random.Random(7777 * (seed + 3))
+    pre = "log := mut 0; t := (k: int, v: int) -> int { log = (*log) * 10 + k; return v }; "
+    for k in range(n):
+        g = _CF(random.Random(rnd.getrandbits(64)))
+        body = g.block(2, [], [], False, rnd.randint(3, 6))
+        cells = sorted({st[1] for st in body if st[0] == "newcell"})
+        heap = [0]
+        env = {}
+        try:
+            for st in body:
+                g.run(st, env, heap)
+            exp = (tuple(heap[env[c]] for c in cells) + (0,), heap[0])
+        except _Ret as r_:
+            exp = r_.v
+        except (_Brk, _Cnt):
+            continue
+        tail = "((" + ", ".join(f"(*{c})" for c in cells) + (", " if cells else "") + "0), (*log))"
+        prog = pre + "main := () -> any { " + "; ".join(g.rstmt(st) for st in body) + f"; return {tail} }}; main()"
+        out.append(Case(f"cfr/{k}", prog, exp, what=f"random control-flow program #{k} (seed {seed})"))
+    return out
+
+
 FAMILIES = {
     "unary:-": fam_unary, "bitwise": fam_bitwise, "compare": fam_compare, "float": fam_float, "eq": fam_eq,
     "eq_array": fam_eq_array, "index": fam_index, "slice": fam_slice, "order": fam_order, "control": fam_control,
-    "fold": fam_fold, "logic": fam_fold_logic, "twins": fam_twins, "twins_random": fam_twins_random,
+    "fold": fam_fold, "logic": fam_fold_logic, "twins": fam_twins, "twins_random": fam_twins_random, "control_random": fam_control_random,
 }
 
 
